@@ -2,6 +2,7 @@ package props
 
 import (
 	"bytes"
+	"errors"
 	"fmt"
 	"io"
 	"sort"
@@ -117,6 +118,8 @@ func writeParas(ps []control.Paragraph) string {
 	return buf.String()
 }
 
+var errInjected = errors.New("injected read failure")
+
 func readAllParas(data string) ([]control.Paragraph, error) {
 	r, err := control.NewParagraphReader(strings.NewReader(data), nil)
 	if err != nil {
@@ -170,7 +173,42 @@ var deb822Impl = map[string]core.Adapter{
 	},
 	// law: a returned paragraph has a value for exactly the fields it lists, each once
 	"law-d822inv": func(a []string) string {
-		ps, err := readAllParas(core.MustUnHex(a[0]))
+		data := core.MustUnHex(a[0])
+		// a reader whose source fails with something other than io.EOF before the end: the failure
+		// is reported, a partial paragraph is not handed out as if the document ended there
+		if len(data) > 2 {
+			cut := (len(data)*7/11 + len(data)%5) % len(data)
+			r, err := control.NewParagraphReader(io.MultiReader(strings.NewReader(data[:cut]), iotest.ErrReader(errInjected)), nil)
+			if err == nil {
+				_, err = r.All()
+			}
+			if err == nil {
+				return fmt.Sprintf("FAIL the source failed after %d of %d bytes (not io.EOF) and All() reports no error", cut, len(data))
+			}
+		}
+		// a caller that goes on after an error (a tolerant loop over an index with a damaged entry):
+		// whatever is returned afterwards still satisfies the invariant
+		if r, err := control.NewParagraphReader(strings.NewReader(data), nil); err == nil {
+			for i := 0; i < 50; i++ {
+				p, err := r.Next()
+				if err == io.EOF {
+					break
+				}
+				if err != nil {
+					continue
+				}
+				seen := map[string]bool{}
+				for _, k := range p.Order {
+					seen[k] = true
+				}
+				for k := range p.Values {
+					if !seen[k] {
+						return fmt.Sprintf("FAIL reading on after an error: a paragraph has a value for %q which it does not list (%q)", k, p.Order)
+					}
+				}
+			}
+		}
+		ps, err := readAllParas(data)
 		if err != nil {
 			return "ok"
 		}
@@ -445,6 +483,15 @@ func boundaryDocs(g *core.G) [][3]string {
 				}
 			}
 		}
+	}
+	// comment lines of the same sizes, in front of a field with a continuation line
+	for _, L := range sizes {
+		if L > 70001 {
+			continue
+		}
+		c := "#" + strings.Repeat(r.Pick([]string{"-", "x", " ", ": "}), L)[:L-1]
+		out = append(out, [3]string{"A: b\n" + c + "\nSection: xxxx\n continued\n", "Section", "4"})
+		out = append(out, [3]string{c + "\r\nSection: xxxx\n" + c + "\n continued\n", "Section", "4"})
 	}
 	return out
 }
